@@ -31,7 +31,7 @@ inductive Sym
   | in_ | notIn
   | and_ | or_ | not_ | neg
   | comma | as_ | when_ | then_ | else_
-  | collate
+  | collate | values
   deriving DecidableEq, Repr, Inhabited
 
 /-- separators inside brackets (`f(a, b)`, `CAST(x AS t)`, `CASE … WHEN … THEN … ELSE … END`) -/
@@ -46,6 +46,7 @@ inductive AtomKind
   | str (s : String)
   | num (s : String)
   | null | true_ | false_
+  | emptySet
   | other
   deriving DecidableEq, Repr, Inhabited
 
